@@ -443,3 +443,15 @@ def run_case(spec):
                 stats={'max_depth': 0, 'frontier_exhausted_below_depth': int(s.exhausted)},
                 sample={'estimator': name, 'depth': depth, 'states': s.states, 'transitions': s.transitions,
                         'a_longest_new-state_trace': s.sample_trace})
+
+
+def replay_violation(rep):
+    """Rebuild the state by applying exactly the recorded call history (no search) and evaluate the invariants of its last step."""
+    name = rep['spec'][1]
+    hist = rep['violation']['detail']['history']
+    w = World(name)
+    for ev in hist[:-1]:
+        apply(w, ev)
+    before = world_digest(w)
+    out = apply(w, hist[-1])
+    return invariant_factory(name)(w, hist[-1], out, hist[:-1], before)
